@@ -97,7 +97,7 @@ def WsRun (w : Bytes) : Prop := ∀ c ∈ w, c = 32 ∨ c = 9 ∨ c = 13
 /-- which lines can be written -/
 def FLineOk : FLine → Prop
   | .blank ws => WsRun ws ∧ ws.length + 1 < maxLineSize
-  | .comment ws text => WsRun ws ∧ (∀ c ∈ text, c ≠ 10 ∧ c ≠ 0) ∧ ws.length + text.length + 2 < maxLineSize
+  | .comment ws text => WsRun ws ∧ (∀ c ∈ text, c ≠ 10 ∧ c ≠ 0) ∧ ws.length + 1 < maxLineSize      -- ANY length
   | .dir args trail =>
     args ≠ [] ∧ LineOk args ∧ WsRun trail ∧
     (∀ x ∈ args, (∀ c ∈ x.2.text, c ≠ 10) ∧ (x.2.style = .bare → ∀ c ∈ x.2.text, Str.isWs c = false)) ∧
@@ -305,7 +305,141 @@ theorem parseInline_skip (cfg : Cfg) (fuel oc ns ln : Nat) (evs : List Event) (l
   rw [htz]
   have hcond : ((Str.trim (line ++ [10]) = []) || ((Str.trim (line ++ [10])).head? == some 35)) = true := by
     rcases hskip with h | h <;> simp [h]
-  simp only [hcond, if_true]
+  simp only [drain_nl, Bool.false_and, Bool.false_eq_true, if_false, hcond, if_true]
+
+/-! ### lines that do not fit into the buffer -/
+
+theorem takeWhile_id {p : UInt8 → Bool} (l : Bytes) (h : ∀ c ∈ l, p c = true) : l.takeWhile p = l := by
+  induction l with
+  | nil => rfl
+  | cons c l ih =>
+    simp only [List.takeWhile_cons, h c (by simp), if_true]
+    rw [ih (fun x hx => h x (by simp [hx]))]
+
+/-- `fgets` on a line of at least `MAX_LINESIZE − 1` bytes: the buffer takes the first
+    `MAX_LINESIZE − 1` bytes, whatever follows the line -/
+theorem fgets_long (line tail : Bytes) (hno : ∀ c ∈ line, c ≠ 10) (hlen : maxLineSize - 1 ≤ line.length) :
+    fgets (line ++ tail) = some (line.take (maxLineSize - 1), line.drop (maxLineSize - 1) ++ tail) := by
+  unfold fgets
+  have hpos : 0 < line.length := by
+    have : maxLineSize - 1 = 4095 := by decide
+    rw [this] at hlen; omega
+  have hne : line ++ tail ≠ [] := by
+    intro h; have := congrArg List.length h; simp only [List.length_append, List.length_nil] at this; omega
+  simp only [hne, if_false]
+  generalize hk : maxLineSize - 1 = k at hlen
+  have ht : (line ++ tail).take k = line.take k := List.take_append_of_le_length hlen
+  have htw : (line.take k).takeWhile (· != 10) = line.take k :=
+    takeWhile_id _ (fun c hc => by simpa using hno c (List.mem_of_mem_take hc))
+  rw [ht, htw]
+  simp only [Nat.lt_irrefl, if_false, List.length_take, Nat.min_eq_left hlen]
+  rw [List.take_append_of_le_length hlen, List.drop_append_of_le_length hlen]
+
+/-- the rest of such a line is consumed up to and including its newline (or to the end of the file);
+    `toolong` says whether anything had to be thrown away -/
+theorem drain_long (line tail : Bytes) (hno : ∀ c ∈ line, c ≠ 10) (hlen : maxLineSize - 1 ≤ line.length)
+    (htail : tail = [] ∨ ∃ rest, tail = 10 :: rest) :
+    drain (line.take (maxLineSize - 1)) (line.drop (maxLineSize - 1) ++ tail) =
+      (tail.drop 1, !(line.drop (maxLineSize - 1)).isEmpty) := by
+  unfold drain
+  have hfull : (line.take (maxLineSize - 1)).length = maxLineSize - 1 ∧
+      (line.take (maxLineSize - 1)).getLast? ≠ some 10 := by
+    refine ⟨by simp [List.length_take]; omega, ?_⟩
+    intro h
+    exact hno 10 (List.mem_of_mem_take (List.mem_of_getLast? h)) rfl
+  rw [if_pos hfull]
+  have hd : ∀ c ∈ line.drop (maxLineSize - 1), (c != 10) = true :=
+    fun c hc => by simpa using hno c (List.mem_of_mem_drop hc)
+  rcases htail with h | ⟨rest, h⟩
+  · subst h
+    simp only [List.append_nil, takeWhile_id _ hd, Ini.dropWhile_all _ hd, List.drop_nil]
+  · subst h
+    have e1 : (line.drop (maxLineSize - 1) ++ 10 :: rest).takeWhile (· != 10) = line.drop (maxLineSize - 1) :=
+      takeWhile_ne_append _ rest 10 (fun c hc => hno c (List.mem_of_mem_drop hc))
+    have e2 : (line.drop (maxLineSize - 1) ++ 10 :: rest).dropWhile (· != 10) = 10 :: rest := by
+      rw [Ini.dropWhile_all_append _ _ hd]; simp
+    rw [e1, e2]
+
+/-- C20 ac_long_comment_ignored at the level of the loop: a comment line of ANY length — white space,
+    `#` within the first `MAX_LINESIZE − 1` bytes, then any text — in any section only advances the
+    line counter by one; nothing of it is tokenized or dispatched -/
+theorem parseInline_comment (cfg : Cfg) (fuel sid : Nat) (parent : Option CbData) (oc ns ln : Nat) (evs : List Event)
+    (ws text tail : Bytes) (hws : WsRun ws) (htext : ∀ c ∈ text, c ≠ 10 ∧ c ≠ 0) (hlen : ws.length + 1 < maxLineSize)
+    (htail : tail = [] ∨ ∃ rest, tail = 10 :: rest) (hnl : tail = [] → maxLineSize - 1 ≤ (ws ++ [35] ++ text).length) :
+    parseInline cfg (fuel + 1) sid parent oc ns ⟨ws ++ [35] ++ text ++ tail, ln, evs⟩ =
+      parseInline cfg fuel sid parent oc ns ⟨tail.drop 1, ln + 1, evs⟩ := by
+  have hp := wsRun_props hws
+  have hno : ∀ c ∈ ws ++ [35] ++ text, c ≠ 10 := by
+    intro c hc
+    rcases List.mem_append.mp hc with h | h
+    · rcases List.mem_append.mp h with h | h
+      · exact hp.1 c h
+      · simp at h; subst h; decide
+    · exact (htext c h).1
+  have hnz : ∀ c ∈ ws ++ [35] ++ text, c ≠ 0 := by
+    intro c hc
+    rcases List.mem_append.mp hc with h | h
+    · rcases List.mem_append.mp h with h | h
+      · exact hp.2 c h
+      · simp at h; subst h; decide
+    · exact (htext c h).2
+  by_cases hshort : (ws ++ [35] ++ text).length + 1 < maxLineSize
+  · -- the line fits
+    obtain ⟨rest, rfl⟩ : ∃ rest, tail = 10 :: rest := by
+      rcases htail with h | h
+      · have := hnl h; omega
+      · exact h
+    conv => lhs; unfold parseInline
+    simp only [fgets_line _ rest hno hshort]
+    rw [takeWhile_nonzero _ (by
+      intro c hc; rcases List.mem_append.mp hc with h | h
+      · exact hnz c h
+      · simp at h; subst h; decide)]
+    obtain ⟨ys, hy⟩ := Ini.trim_head ws (text ++ [10]) 35 (wsRun_isWs hws) (by decide)
+    have e : ws ++ [35] ++ text ++ [10] = ws ++ 35 :: (text ++ [10]) := by simp
+    rw [drain_nl, e, hy]
+    simp
+  · have hlong : maxLineSize - 1 ≤ (ws ++ [35] ++ text).length := by omega
+    conv => lhs; unfold parseInline
+    simp only [fgets_long _ tail hno hlong]
+    have hnzc : ∀ c ∈ (ws ++ [35] ++ text).take (maxLineSize - 1), c ≠ 0 := fun c hc => hnz c (List.mem_of_mem_take hc)
+    rw [takeWhile_nonzero _ hnzc, drain_long _ tail hno hlong htail]
+    -- the buffer starts with the white space and the `#`
+    have hchunk : (ws ++ [35] ++ text).take (maxLineSize - 1) = ws ++ 35 :: text.take (maxLineSize - 1 - (ws.length + 1)) := by
+      have e : ws ++ [35] ++ text = (ws ++ [35]) ++ text := rfl
+      rw [e, List.take_append]
+      have h1 : (ws ++ [35]).take (maxLineSize - 1) = ws ++ [35] :=
+        List.take_of_length_le (by simp only [List.length_append, List.length_cons, List.length_nil]; omega)
+      rw [h1]
+      simp
+    obtain ⟨ys, hy⟩ := Ini.trim_head ws (text.take (maxLineSize - 1 - (ws.length + 1))) 35 (wsRun_isWs hws) (by decide)
+    rw [hchunk, hy]
+    simp
+
+/-- C20 ac_long_directive_rejected at the level of the loop: a line of more than `MAX_LINESIZE − 1`
+    bytes whose first non-blank byte (within the buffer) is not `#` is the error "Line is too long."
+    of that line, in any section; the callbacks made so far are kept, nothing is added -/
+theorem parseInline_tooLong (cfg : Cfg) (fuel sid : Nat) (parent : Option CbData) (oc ns ln : Nat) (evs : List Event)
+    (line tail : Bytes) (hno : ∀ c ∈ line, c ≠ 10 ∧ c ≠ 0) (hlen : maxLineSize ≤ line.length)
+    (hnc : (Str.trim (line.take (maxLineSize - 1))).head? ≠ some 35)
+    (htail : tail = [] ∨ ∃ rest, tail = 10 :: rest) :
+    parseInline cfg (fuel + 1) sid parent oc ns ⟨line ++ tail, ln, evs⟩ =
+      .ok (⟨tail.drop 1, ln + 1, evs⟩, .err (ln + 1) (str "Line is too long.")) := by
+  have hno10 : ∀ c ∈ line, c ≠ 10 := fun c hc => (hno c hc).1
+  have hlong : maxLineSize - 1 ≤ line.length := by omega
+  conv => lhs; unfold parseInline
+  simp only [fgets_long _ tail hno10 hlong]
+  rw [takeWhile_nonzero _ (fun c hc => (hno c (List.mem_of_mem_take hc)).2), drain_long _ tail hno10 hlong htail]
+  have hrest : (line.drop (maxLineSize - 1)).isEmpty = false := by
+    cases hd : line.drop (maxLineSize - 1) with
+    | nil =>
+      have := congrArg List.length hd
+      simp only [List.length_drop, List.length_nil] at this
+      have hk : maxLineSize = 4096 := by decide
+      omega
+    | cons a t => rfl
+  have hh : ((Str.trim (line.take (maxLineSize - 1))).head? != some 35) = true := by simp [hnc]
+  simp only [hrest, Bool.not_false, hh, Bool.and_self, if_true]
 
 theorem mem_escapeGo (qc : UInt8) (t : Bytes) : ∀ (e : List Bool) (c : UInt8), c ∈ escapeGo qc t e → c ∈ t ∨ c = 92 := by
   induction t with
@@ -494,6 +628,7 @@ theorem parseInline_dir (cfg : Cfg) (hcb : ∀ d, cfg.cbFail d = none) (fuel oc 
       · exact hline0 c h
       · simp at h; subst h; decide)]
     rw [htrim]
+    simp only [drain_nl, Bool.false_and, Bool.false_eq_true, if_false]
     have hXne : X ≠ [] := by rw [hXhead]; simp
     have hcond : ((X = []) || (X.head? == some 35)) = false := by
       rw [hXhead]; simp [hc0.2]
@@ -573,28 +708,11 @@ theorem parseInline_flat (cfg : Cfg) (hcb : ∀ d, cfg.cbFail d = none) (lines :
       exact ih f oc ns (ln + 1) evs hokr hfr
     | comment ws text =>
       obtain ⟨hws, htext, hlen⟩ := hl
-      have hp := wsRun_props hws
-      have hno : ∀ c ∈ ws ++ [35] ++ text, c ≠ 10 := by
-        intro c hc
-        rcases List.mem_append.mp hc with h | h
-        · rcases List.mem_append.mp h with h | h
-          · exact hp.1 c h
-          · simp at h; subst h; decide
-        · exact (htext c h).1
-      have hnz : ∀ c ∈ ws ++ [35] ++ text, c ≠ 0 := by
-        intro c hc
-        rcases List.mem_append.mp hc with h | h
-        · rcases List.mem_append.mp h with h | h
-          · exact hp.2 c h
-          · simp at h; subst h; decide
-        · exact (htext c h).2
-      have hskip : (Str.trim (ws ++ [35] ++ text ++ [10])).head? = some 35 := by
-        obtain ⟨ys, h⟩ := Ini.trim_head ws (text ++ [10]) 35 (wsRun_isWs hws) (by decide)
-        have e : ws ++ [35] ++ text ++ [10] = ws ++ 35 :: (text ++ [10]) := by simp
-        rw [e, h]; rfl
       simp only [renderLine]
-      rw [parseInline_skip cfg f oc ns ln evs _ (renderFlat rest) hno hnz
-        (by simp only [List.length_append, List.length_cons, List.length_nil]; omega) (Or.inr hskip)]
+      have := parseInline_comment cfg f qacSectionRoot none oc ns ln evs ws text (10 :: renderFlat rest) hws htext hlen
+        (Or.inr ⟨_, rfl⟩) (by intro h; cases h)
+      simp only [List.drop_succ_cons, List.drop_zero] at this
+      rw [this]
       simp only [specRun]
       exact ih f oc ns (ln + 1) evs hokr hfr
     | dir args trail =>
